@@ -427,6 +427,7 @@ func (w *hdrWorld) run() {
 	}
 
 	var prevExp *hdrExp
+	divergedAt := -1
 	for step := range w.beh.Ops {
 		op := w.beh.Ops[step]
 		w.stats.Lock()
@@ -468,7 +469,11 @@ func (w *hdrWorld) run() {
 				}
 				w.cmp("C08")
 				if cls != wantClass(op.Exp.Verdict) {
-					w.fail("C08", step, op, fmt.Sprintf("verdict got %s want %s", cls, op.Exp.Verdict))
+					lbl := "C08"
+					if op.Exp.Verdict == "ok" {
+						lbl = "C08+C01" // C01: "a submission that returns an error never leaves a strictly heavier accepted chain unreported"
+					}
+					w.fail(lbl, step, op, fmt.Sprintf("verdict got %s want %s", cls, op.Exp.Verdict))
 				} else if failedAt > 0 {
 					w.fail("C08", step, op, fmt.Sprintf("refused at header %d of the run", failedAt))
 				}
@@ -606,7 +611,16 @@ func (w *hdrWorld) run() {
 		}
 
 		if len(w.div) > 0 {
-			return // the first diverging step decides
+			// The first diverging step decides which property a behaviour is counted against.  The replay goes
+			// on for a few steps all the same: a wrong lookup after a Clean (C09/C10) is often followed by a
+			// refused submission or an unreported heavier chain (C08/C01), and the check of that property
+			// should see it too.  On a tree without divergences this changes nothing.
+			if divergedAt < 0 {
+				divergedAt = step
+			}
+			if step-divergedAt >= 3 || len(w.div) > 40 {
+				return
+			}
 		}
 
 		if step == probeStep {
@@ -702,7 +716,11 @@ func (w *hdrWorld) observe(step int, op hdrOp, prev *hdrExp) {
 		}
 		w.cmp("C07")
 		if fmt.Sprint(got) != fmt.Sprint(expStream) {
-			w.fail("C07", step, op, fmt.Sprintf("subscriber %d stream got %v want %v (blocks %v)", si, compact(got, S), compact(expStream, S), exp.Delta))
+			lbl := "C07"
+			if op.Op == "submit" && exp.Verdict != "ok" {
+				lbl = "C07+C08" // a refused (or already known) submission announced something: it left a trace
+			}
+			w.fail(lbl, step, op, fmt.Sprintf("subscriber %d stream got %v want %v (blocks %v)", si, compact(got, S), compact(expStream, S), exp.Delta))
 		} else if !ok {
 			w.fail("C07", step, op, fmt.Sprintf("subscriber %d could not attach a header", si))
 		}
@@ -1009,9 +1027,9 @@ func (w *hdrWorld) observeProofs(step int, op hdrOp) {
 func (w *hdrWorld) tipProp(op hdrOp) string {
 	switch op.Op {
 	case "clean":
-		return "C10"
+		return "C10+C01"
 	case "save", "load", "legacy":
-		return "C11"
+		return "C11+C01" // C01: "... interleaved at any point with Clean, Save and Load"
 	case "mark", "unmark":
 		return "C17"
 	}
